@@ -224,6 +224,12 @@ def _run_path(world, c, params, tag, it, path, rep, first):
     fn = FuncRef(c.module, fnode, c.qualname)
     fr = Frame(module=c.module)
     fr.world_state = world.module_state
+    if '.' in c.qualname and '<locals>' not in c.qualname:
+        cname = c.qualname.split('.')[-2]
+        ent = c.module.top.get(cname)
+        if ent and isinstance(ent[-1], ast.ClassDef):
+            fr.method_owner = world.class_ref(c.module, ent[-1])
+            fr.method_self = None
     world.module_state.clear()
     # bind parameters
     env = {}
@@ -231,6 +237,8 @@ def _run_path(world, c, params, tag, it, path, rep, first):
         env[name] = make_param(name, t, path)
     for name, v in c.env.items():
         val = v(name, path) if getattr(v, 'is_factory', False) else v
+        if not name.startswith('global:'):
+            it.ghost_vars['old_' + name] = val
         if name.startswith('global:'):
             world.module_state[(c.module.name, name[7:])] = val
             it.ghost_vars['G_' + name[7:]] = val
@@ -260,6 +268,9 @@ def _run_path(world, c, params, tag, it, path, rep, first):
             fr.vars[p] = {}
         else:
             raise Unsupported('no value for parameter %s' % p)
+    it.ghost_vars.update(path.ghost)
+    if getattr(fr, 'method_owner', None) is not None and 'self' in env:
+        fr.method_self = env['self']
     for name in env:
         if name not in formal:
             it.ghost_vars[name] = env[name]     # ghost parameter
